@@ -7,8 +7,11 @@ O2 iterators stay in range: every call of the throwing accessor test(p) made by 
    [-1, size]
 O3 shift arithmetic: no wrapped unsigned expression feeds a loop start value or bound; the binary
    operators &,|,^ are defined by delegation to their compound forms
-Not decided: agreement of count/any/none/all/to_string/to_ulong with a reference model, equality
-of << and <<= results bit by bit."""
+R4 summarising observers agree with the reference bit vector (c12_bits.py)
+R5 mutating operators: size and every bit of the result (bit-level content model, cv/bits.py)
+R6 iteration order: linear-search proof of forward()/reverse()
+Not decided: histories (sequences of operations) beyond the per-operation contracts; the per-operation contracts
+compose because every operation is specified for an arbitrary receiver state."""
 import os
 
 from ..bounds import Engine, Ptr, Obj, Obligation, UNKNOWN, St
@@ -79,8 +82,10 @@ def run(chk):
         'the path condition (guards, resize, loop conditions, monotone counters); unsigned subtraction is linear only '
         'if it provably does not wrap, wrapped values feeding loop variables are reported; the iterator position '
         'invariant -1 <= pos <= size and the search-loop invariants are proved inductively; begin()/rbegin()/++/-- '
-        'must not reach a throw. All positions and shift distances of the full size_t range are covered (positions beyond vector::max_size() must end in std::length_error). Not decided: '
-        'bit-level agreement with a reference model.')
+        'must not reach a throw. All positions and shift distances of the full size_t range are covered (positions beyond vector::max_size() must end in std::length_error). The summarising '
+        'observers (R4), every mutating operator bit by bit (R5, bit-level content model of std::vector<bool>) and the '
+        'iteration order (R6, linear-search proof) are decided against the reference bit vector per operation for an '
+        'arbitrary receiver state.')
     chk.assumptions = ['shift distances are < 2^62 (positions are NOT bounded)', 'std::vector<bool>::max_size() <= 2^63-1; resize( n) with n > max_size() throws std::length_error',
                        'std::vector<bool>::resize( n) yields size() == n; (x * 1.5) converted to size_t is >= x for x >= 0']
     chk.trusted_base = ['clang 14 front end', '/verif/tools/celma-facts.cc', '/verif/cv/bounds.py + lin.py']
